@@ -594,10 +594,12 @@ HYPOTHESES = ['field_theory + decidable equality of the carrier',
               'parity_neg: y <> 0 -> parity (-y) = negb (parity y) (odd characteristic; sign clause only)',
               'qr_sq_mul: c <> 0 -> is_qr (c*c*x) = is_qr x (Elligator 2 only)',
               'Elligator 2 constants: K <> 0, (J/K)*K = J, (1/K^2)*K^2 = 1, a*K = J+2, d*K = J-2 (re-checked per configuration by config_ok)',
-              'iso_identity = true for the isogeny constants (kernel-checked for toy127, BLS12-377 G1, BLS12-381 G2; model-checked every run for all)']
+              'iso_identity = true for the isogeny constants (kernel-checked for toy127, BLS12-377 G1, BLS12-381 G2; model-checked every run for all)',
+              'sqrt_complete: r <> 0 -> r*r = x -> exists s, sqrt x = Some s /\\ s*s = x (C13_swu_equals_rfc only: the oracle finds a root whenever one exists)',
+              'is_qr 0 = false (C13_swu_gx1_zero_value only: the code treats Legendre(0) as non-square, observation O-a)']
 
 # pinned theorems that instantiate this package's abstract-field theorems at the executed ZpOps dictionary
-EXTRA_PROP_FILES = ['Bridge2']
+EXTRA_PROP_FILES = ['Bridge2', 'C13Swu']
 
 # T-field translator, table 2 (lib/xlate_field.py --table2): coq/Gen/GenField2.v (hash-to-curve maps, coordinate recovery,
 # subgroup tests / endomorphisms incl. the bls12_381 and bn254 overrides) is regenerated from the working tree before the Coq
